@@ -132,7 +132,7 @@ CLAIMED = {
         "propensities read them; dt = ln(1/u2)/a0 is positive and exceeds tau iff u2 < exp(-a0 tau). Tied to the code on every run by "
         "EXACT REPLAY: the engine (compiled from the working tree) records every state and time of Gillespie and tau-leap runs on random "
         "systems; Coq derives the uniforms from the seed, predicts every event, every waiting time (enclosure of exp around u2) and every "
-        "tau-leap firing count (libstdc++ small-mean Poisson) and compares the resulting states exactly. A fifth of the replayed runs have a well stocked chemostated cell or species as the only source (exempt from the change, not from the propensity).",
+        "tau-leap firing count (libstdc++ small-mean Poisson) and compares the resulting states exactly. A fifth of the replayed runs have a well stocked chemostated cell or species as the only source (exempt from the change, not from the propensity). In a third of the runs the chemostat flags are integers other than 1.",
         "Trusted: Coq kernel + VM; the hand-written models of ReactionProp / DiffusionProp / ComputePropensities / DrawAndApplyEvent / "
         "Compute_nevt / Apply_nevt and of mt19937, libstdc++ 12's generate_canonical and poisson_distribution (mean < 12), all tied by the "
         "replay itself (140 runs / ~1800 steps quick; 3000 runs thorough); the fixed-point enclosure of exp(-y) (evaluator, checked "
@@ -210,7 +210,7 @@ CLAIMED = {
         "every run: the ASan + UBSan + _GLIBCXX_ASSERTIONS build of the engine from the working tree executes the lifecycle histories of "
         "C10 and whole runs of random valid scripts (three engines, grid/graph, four policies incl. empty tails, four "
         "init_state_processing modes, sub-molecule and > 100 amounts, periodic axes of length 1 and 2, isolated nodes) in child "
-        "processes; any report, death by signal or hang where the model predicts 'safe' is a violation.",
+        "processes; any report, death by signal or hang where the model predicts 'safe' is a violation. One run in eight has a network of 9 to 40 reactions.",
         "Trusted: Coq kernel + VM; the hand-written models (the per-array index formulas are those of C01/C09/C15's models, tied to the "
         "code there); the sanitizers and g++ -O1; sampled scripts (300 runs + ~400 histories quick, 6000 + ~6000 thorough); two-object "
         "histories on which the lifecycle model predicts undefined behaviour are not judged (F13, see C10); hangs matching F20 are "
@@ -254,7 +254,7 @@ CLAIMED = {
         "are distinct entries, a bare number is read in the system's units, a wrong dimension is rejected, label and index address "
         "the same species. Tied to rdsystem.py / value_processing.py / rdgraphspace.py on every run by random systems with "
         "independent unit systems at every level and random accessor sequences (species by index/label/object, cell by "
-        "index/tuple/object, invalid addresses) incl. species edits followed by regeneration; verdict computed in Coq. A third of the spaces (and a fifth of the species / reactions of every random system, in every check that draws systems) are built in one units system and given another before use.",
+        "index/tuple/object, invalid addresses) incl. species edits followed by regeneration; verdict computed in Coq. A third of the spaces (and a fifth of the species / reactions of every random system, in every check that draws systems) are built in one units system and given another before use. Cells are addressed by index, tuple, list, x/y/z object, numpy rows of int8 / int64 / float32 and points inside the cell.",
         "Trusted: Coq kernel + VM; the hand-written model of generate_system_state / generate_system_chemostats / get_value_in_env / "
         "get_state_index / set_state (tied by sampled correspondence: 300 systems quick, 5000 thorough); environment indices are "
         "generated valid (invalid ones belong to C20); binary64 compared at relative 1e-9; the translator harness/translate_enums.py (Python ast for the validators' membership tests and engine_collection.py; regular expressions over comment-free engine.cpp / *Base.hpp for the CompareStr chains and the SamplingStep switch; any other shape is an error); the Python harness.",
@@ -270,7 +270,7 @@ CLAIMED = {
         "run: sample 0 of trajectories for four init_state_processing values x three engines x grid/graph on random real-valued states "
         "(sub-molecule, fractional, integral, around the thresholds 12 and 100, above 100, empty cells, seeds 0 / 1 / 2^31-1): replayed "
         "EXACTLY from the seed in Coq where all amounts are below 12 (mt19937, generate_canonical, small-mean Poisson, correction loop), "
-        "checked against the stated invariants otherwise; two set-ups with the same seed must agree. String enumerations re-read from the source on every run (harness/translate_enums.py, fail-closed; Model/Enums.v, obligations in Proofs/EnumFacts.v by closed computation): every processing mode the script accepts is resolved by both initialisers to the documented action (none: keep, Poisson: draw, redist: redistribute, auto: by the engine's stochasticity), every branch transposes the amounts to cell-major order, and requires_molecules of engine_collection.py is is_stochastic of engine.cpp (C14_mode_dispatch, C14_engine_options). In a fifth of the cases a species' amounts add up exactly to an integer, or to 2^-33 below or above one (dyadic, so the sums are exact): the number of molecules is the floor of the total.",
+        "checked against the stated invariants otherwise; two set-ups with the same seed must agree. String enumerations re-read from the source on every run (harness/translate_enums.py, fail-closed; Model/Enums.v, obligations in Proofs/EnumFacts.v by closed computation): every processing mode the script accepts is resolved by both initialisers to the documented action (none: keep, Poisson: draw, redist: redistribute, auto: by the engine's stochasticity), every branch transposes the amounts to cell-major order, and requires_molecules of engine_collection.py is is_stochastic of engine.cpp (C14_mode_dispatch, C14_engine_options). In a fifth of the cases a species' amounts add up exactly to an integer, or to 2^-33 below or above one (dyadic, so the sums are exact): the number of molecules is the floor of the total. A few cases hold 2^31 to 6e9 molecules in one entry (beyond a 32-bit integer); with init_state_processing = Poisson such a set-up does not return - known finding F23.",
         "Trusted: Coq kernel + VM; the hand-written model of GenerateStochasticDistribution / PoissonSample / the mode dispatch tied by "
         "replay (about 3/4 of 400 cases quick, 10000 thorough) and by invariants for amounts >= 12 (libstdc++'s large-mean Poisson and "
         "normal_distribution are not modelled); that the draws are Poisson-distributed is the library's contract; the exp enclosure "
@@ -285,7 +285,7 @@ CLAIMED = {
         "neighbour table is an involution under direction reversal. Tied to the code on every run by an exhaustive sweep of all grids "
         "with w*h*d <= 24 (quick) / 64 (thorough) through the public API, and, up to 8 / 12 cells, of the kinetics functions and one "
         "step of the freshly compiled Euler engine on the grid and on grid_to_graph(grid) (pure-diffusion probe x_c = 8^c, exact). "
-        "grid_to_graph's node and edge lists are compared with the model's edge multiset (adjacency, surface h^2, distance h). String enumerations re-read from the source on every run (harness/translate_enums.py, fail-closed; Model/Enums.v, obligations in Proofs/EnumFacts.v by closed computation): the grid's two boundary-condition strings are the ones engine.cpp compares against, per axis and index (C15_boundary_strings).",
+        "grid_to_graph's node and edge lists are compared with the model's edge multiset (adjacency, surface h^2, distance h). String enumerations re-read from the source on every run (harness/translate_enums.py, fail-closed; Model/Enums.v, obligations in Proofs/EnumFacts.v by closed computation): the grid's two boundary-condition strings are the ones engine.cpp compares against, per axis and index (C15_boundary_strings). get_cell_index takes its coordinates in every form (tuple, list, numpy rows of int8 / uint8 / int16 / int64, floats inside the cell), also on two grids above 255 cells (16x17x1, 7x6x7; static relations only).",
         "Trusted: Coq kernel + VM; the hand-written Gallina transcription of rdgridspace.py / kinetics.py candidates / GetNeighborIndex / "
         "grid_to_graph (tied by the exhaustive sweep on the stated bound, not beyond); the statement that grid_to_graph preserves the "
         "edge multiset and that graph dynamics equal grid dynamics is established by correspondence only (exhaustive on the bound), "
@@ -302,7 +302,7 @@ CLAIMED = {
         "each environment's cells into random groups and dropping a random fraction (dropped cells of several environments), identity "
         "maps and six kinds of invalid maps; accepted / raised against the documented validity rules, node volumes and environments, the "
         "edge list in order with surfaces and squared centroid distances, aggregated state and flags, uncoarsegrain_trajectory_data, and "
-        "simulate(cgmap=identity) against the plain Euler simulation. The coarse trajectory that is un-coarse-grained states its amounts in a unit of its own, and every result is compared as an amount (converted), never as a bare number.",
+        "simulate(cgmap=identity) against the plain Euler simulation. The coarse trajectory that is un-coarse-grained states its amounts in a unit of its own, and every result is compared as an amount (converted), never as a bare number. Un-coarse-graining is asked twice and must leave its trajectory as it was.",
         "Trusted: Coq kernel + VM; the hand-written model of coarsegrain.py tied by sampled correspondence (400 maps quick, 6000 thorough); "
         "surface = shared faces x area and distance = centroid distance are established by correspondence against the model's definitions "
         "(merge of the grid's adjacency list by group pair; mean of member positions), not restated as separate theorems; the identity-map "
@@ -318,7 +318,7 @@ CLAIMED = {
         "last), closest the nearer of the bracketing pair with ties to the earlier and the end samples outside the range. Tied to "
         "rdoutput.py on every run: exhaustive over shapes N,S,C <= 4 (5 thorough) x grid/graph, every triple through every accessor "
         "with species by index/label/object and cells by index/tuple/object, sample times with and without duplicates, queries "
-        "before/after/on/between samples in several time units; verdict in Coq (exact equality for reads). String enumerations re-read from the source on every run (harness/translate_enums.py, fail-closed; Model/Enums.v, obligations in Proofs/EnumFacts.v by closed computation): the look-up policies get_sample_index accepts are exactly closest, supeq, infeq (C17_lookup_policies). Grids take every factorisation of the cell count, plus 16x17x1 and 7x6x7; cells are referred to by index, tuple, list, x/y/z object, numpy rows of uint8 / int16 / int64 / float64, numpy integers and points inside the cell. A third of the trajectories carry the script of another system than the one their data are laid out on (coarse-grained runs); an accessor that raises on a valid reference is an observation.",
+        "before/after/on/between samples in several time units; verdict in Coq (exact equality for reads). String enumerations re-read from the source on every run (harness/translate_enums.py, fail-closed; Model/Enums.v, obligations in Proofs/EnumFacts.v by closed computation): the look-up policies get_sample_index accepts are exactly closest, supeq, infeq (C17_lookup_policies). Grids take every factorisation of the cell count, plus 16x17x1 and 7x6x7; cells are referred to by index, tuple, list, x/y/z object, numpy rows of uint8 / int16 / int64 / float64, numpy integers and points inside the cell. A third of the trajectories carry the script of another system than the one their data are laid out on (coarse-grained runs); an accessor that raises on a valid reference is an observation. The last sample is also read through index -1; a block of the wrong shape is an observation.",
         "Trusted: Coq kernel + VM; the hand-written model of the numpy reshape-based accessors (row-major) and of the three look-up "
         "loops, tied by the exhaustive sweep on the stated bound; closest is claimed on strictly increasing times only (with duplicate "
         "times 'ties to the earlier' is not meaningful); negative / out-of-range sample indices are not part of the statement; queries "
@@ -376,7 +376,7 @@ CLAIMED = {
         "naming an environment outside [0, nenv); unknown boundary condition / axis / sampling policy / processing mode; empty environment "
         "list and 'default'; positions outside grids and graphs through six accessors; unknown species; invalid coarse-graining maps. "
         "Which inputs are invalid is computed by `invalid` (Model/AcceptC20.v) from the models of C05/C06/C12/C15/C16/C18; the package must "
-        "raise exactly on those and leave state and chemostat map untouched. String enumerations re-read from the source on every run (harness/translate_enums.py, fail-closed; Model/Enums.v, obligations in Proofs/EnumFacts.v by closed computation): what the validators accept - sampling policies, processing modes, axes, boundary conditions, look-up policies - is what the documentation lists, no more and no less (C20_validators_agree); the correspondence draws look-up policies too (finding F21). Wrong dimensions are also given as quantity objects: one entry of a per-environment dictionary (species D and density, reaction constants; constructor and setter), script times, node volumes, edge surfaces and distances. A species that was known - looked up by label, then removed from the network's species list - must be unknown afterwards.",
+        "raise exactly on those and leave state and chemostat map untouched. String enumerations re-read from the source on every run (harness/translate_enums.py, fail-closed; Model/Enums.v, obligations in Proofs/EnumFacts.v by closed computation): what the validators accept - sampling policies, processing modes, axes, boundary conditions, look-up policies - is what the documentation lists, no more and no less (C20_validators_agree); the correspondence draws look-up policies too (finding F21). Wrong dimensions are also given as quantity objects: one entry of a per-environment dictionary (species D and density, reaction constants; constructor and setter), script times, node volumes, edge surfaces and distances. A species that was known - looked up by label, then removed from the network's species list - must be unknown afterwards. Environment collections come as lists, tuples and arrays, through constructor and setter.",
         "Trusted: Coq kernel + VM; `invalid` for the classes that are plain range / membership tests (sizes, environment maps and names, "
         "choices, graph positions, species references) is the specification itself, read off the statement; sampled injection sites; "
         "get_species_index returning None (documented) counts as a rejection; the translator harness/translate_enums.py (Python ast for the validators' membership tests and engine_collection.py; regular expressions over comment-free engine.cpp / *Base.hpp for the CompareStr chains and the SamplingStep switch; any other shape is an error); the Python harness.",
